@@ -791,3 +791,112 @@ Example C04_open_rw_total_nonvacuous :
   jnums_ok None ox_jl /\
   exists r, ox_open (ox_opts false) [] ox_img = OOk r.
 Proof. exact ox_rw_total. Qed.
+
+(* ------------------------------------------------------------------------------------------------------------
+   Towards (a): the tables the recovery flushes (Store/OpenFlushProofs.v).
+
+   (a1) THE BRIDGE — full.  session.flushMemdb's writer call in the model of Open (Codec/Table.v twrite with
+   Store/OpenPath.v's iComparer — Codec/IKey.v isep_bytes / isucc_bytes — and the filter generator handed to Open) IS
+   Lsm/WritePath.v's table_bytes (the writer of C01_writer_output_ok / C01_flush_step_bytes, options record wo_of) on
+   every list of decodable internal keys, for a user comparer whose Separator / Successor return byte strings
+   (cmp_wf).  The hypothesis is what the proof revealed: the two models of iComparer.Separator differ on a user
+   comparer that answers with something that is no []byte (an element above 255) — Lsm/WritePath.v's refuses the
+   answer (enc_short), Codec/IKey.v's does not look; in Go a []byte always is one; goleveldb's default comparer
+   satisfies it (C04_open_rw_flush_table_ok_nonvacuous). *)
+From GL Require Import Store.OpenFlushProofs.
+From GL Require Lsm.WritePath Lsm.WritePathTable Codec.TableCheck Base.Cursor.
+Theorem C04_open_flush_is_table_bytes :
+  forall c kp, cmp_wf c -> forall tp crc compress blockSize ri snappy fgen kvs,
+  Forall (fun kv => exists x, ik_dec (fst kv) = Some x) kvs ->
+  twrite tp crc compress (OpenPath.iwc kp c) blockSize ri snappy fgen kvs =
+  WritePath.table_bytes c kp tp crc compress (wo_of blockSize ri snappy fgen) kvs.
+Proof. exact twrite_table_bytes. Qed.
+Print Assumptions C04_open_flush_is_table_bytes.
+
+(* (a2), per flush — full for ONE flush of the recovery.  Whenever session.flushMemdb (flush_memdb: from the replay
+   buffer straight into the pending session record) runs on a non-empty buffer that satisfies C14's invariant, under
+   the side conditions of C01_writer_output_ok for that buffer (flush_side_ok: C13's computable size condition; with
+   a filter policy, C16's no-false-negative condition on the file written): the file it stores under the next file
+   number is table_bytes of the buffer's pairs; the record it appends to the pending adds is level 0, that number,
+   the file's length, first and last key; the table file so recorded (tfile_of, what levels_of builds once the
+   journal's commit moves the pending add into the version) passes tfile_okb with those bounds and table_check's to
+   EXACTLY the buffer's pairs, which are strictly increasing under iComparer and are the buffer's entries. *)
+Theorem C04_open_rw_flush_table_ok :
+  forall rp kp, kparams_ok kp -> (keyTypeSeek kp <= keyTypeVal kp)%N -> forall mp, MemDB.mparams_ok mp ->
+  forall tp, tparams_ok tp -> forall tcrc, (forall b, tcrc b < 2 ^ 32)%N ->
+  forall compress decompress, (forall x, decompress (compress x) = Some x) -> (forall x, compress x <> []) ->
+  forall snappy fgen blockSize ri, (1 <= ri)%N -> forall c, comparer_ok c -> cmp_wf c ->
+  forall fname ufc verify st st',
+  mem_ok c kp mp (r_mdb st) -> mem_pairs mp (r_mdb st) <> [] ->
+  flush_side_ok kp tp tcrc compress decompress snappy fgen blockSize ri c fname ufc verify
+    (Z.to_N (s_next (c_sess (r_c st)))) (mem_pairs mp (r_mdb st)) ->
+  flush_memdb rp kp mp tp tcrc compress snappy fgen blockSize ri c st = OOk st' ->
+  let kvs := mem_pairs mp (r_mdb st) in
+  let num := s_next (c_sess (r_c st)) in
+  exists file,
+    WritePath.table_bytes c kp tp tcrc compress (wo_of blockSize ri snappy fgen) kvs = Some file /\
+    c_files (r_c st') = f_set (c_files (r_c st)) (Sweep.FTable, Z.to_N num) file /\
+    s_next (c_sess (r_c st')) = (num + 1)%Z /\ s_levels (c_sess (r_c st')) = s_levels (c_sess (r_c st)) /\
+    r_mdb st' = r_mdb st /\
+    let t := SessionRecord.mkat 0%Z num (Z.of_N (Varint.lenN file)) (WritePath.key_first kvs) (WritePath.key_last kvs) in
+    SessionRecord.sr_adds (r_rec st') = SessionRecord.sr_adds (r_rec st) ++ [t] /\
+    let f := tfile_of (c_files (r_c st')) t in
+    f = mkTF (Z.to_N num) (WritePath.key_first kvs) (WritePath.key_last kvs) file /\
+    tfile_okb c kp tp tcrc decompress fname ufc verify ri f = true /\
+    TableCheck.table_check (ibc c) (tf_reader c tp tcrc decompress fname ufc verify f) ri = Some kvs /\
+    Cursor.sorted (ibc c) kvs /\ map entry_of kvs = mem_entries mp (Some (r_mdb st)).
+Proof. exact flush_memdb_table_ok. Qed.
+Print Assumptions C04_open_rw_flush_table_ok.
+
+(* ... and WHICH records that buffer holds.  One journal record replayed in read-write mode is the read-only step —
+   after which the buffer holds what it held plus, when the sequence rule accepts the batch, its stamped records
+   (jb_entries) — followed, when the buffer has reached the write buffer size, by flush_memdb of exactly that buffer
+   and a Reset that leaves it empty.  The recovery also resets the buffer at the start of every journal; so the buffer
+   a flush writes out holds the stamped records of the batches accepted since the previous flush of that journal (or
+   its start), and the theorem above says the table holds exactly those, in internal-key order. *)
+Theorem C04_open_rw_replay_flush :
+  forall rp kp, kparams_ok kp -> (keyTypeSeek kp <= keyTypeVal kp)%N -> forall mp, MemDB.mparams_ok mp ->
+  forall tp tcrc compress snappy fgen blockSize ri c, comparer_ok c ->
+  forall o j b st st',
+  oo_strict_j o = false -> jb_ok kp b -> mem_inv kp mp c st ->
+  replay_record rp kp 12 mp tp tcrc compress snappy fgen blockSize ri c o true j (jb_enc kp b) st = OOk st' ->
+  exists st1,
+    replay_record rp kp 12 mp tp tcrc compress snappy fgen blockSize ri c o false j (jb_enc kp b) st = OOk st1 /\
+    mem_inv kp mp c st1 /\ r_c st1 = r_c st /\ r_rec st1 = r_rec st /\
+    (if (fst b <? r_seq st)%N then r_mdb st1 = r_mdb st
+     else forall x, In x (mem_entries mp (Some (r_mdb st1))) <->
+                    In x (mem_entries mp (Some (r_mdb st))) \/ In x (jb_entries kp b)) /\
+    (st' = st1 \/
+     exists st2, flush_memdb rp kp mp tp tcrc compress snappy fgen blockSize ri c st1 = OOk st2 /\
+                 r_c st' = r_c st2 /\ r_rec st' = r_rec st2 /\ mem_entries mp (Some (r_mdb st')) = [] /\
+                 mem_inv kp mp c st').
+Proof. exact replay_record_rw_decompose. Qed.
+Print Assumptions C04_open_rw_replay_flush.
+
+(* Non-vacuity: the hypotheses of C04_open_rw_flush_table_ok hold together — goleveldb's default comparer returns byte
+   strings, the CRC instance stays below 2^32, and the replay buffer after the synced batch of the example image
+   (Put a, Delete b at sequence numbers 1, 2), flushed as table 0 with the generated constants, the real CRC-32C, 4 KiB
+   blocks, restart interval 16, no compression, no filter, satisfies C14's invariant, has two pairs and passes the
+   side conditions; flush_memdb returns. *)
+Example C04_open_rw_flush_table_ok_nonvacuous :
+  cmp_wf bytewise /\ (forall b, tbl_crc b < 2 ^ 32)%N /\
+  exists st st',
+    mem_ok bytewise kp mp (r_mdb st) /\ length (mem_pairs mp (r_mdb st)) = 2%nat /\
+    flush_side_ok kp tblp tbl_crc (fun x => 0%N :: x) (fun x => Some (tl x)) false None 4096 16 bytewise None (fun _ _ _ => true) true
+      (Z.to_N (s_next (c_sess (r_c st)))) (mem_pairs mp (r_mdb st)) /\
+    flush_memdb rp kp mp tblp tbl_crc (fun x => 0%N :: x) false None 4096 16 bytewise st = OOk st'.
+Proof. exact fx_flush_hyps. Qed.
+
+(* STILL OPEN after this (the _partial name of C04_open_rw_refines_recover_total_partial stays):
+     (a2/a3) the lifting of the per-flush theorem through rj_loop / open_rw to open_bytes: an invariant "every table of
+         the version and every pending add passes tfile_okb, its number is below the next file number" carried through
+         every flush (the theorem above; fresh number, so no named table file is overwritten), every commit (the new
+         levels hold old tables and pending adds only: Store/OpenTotalProofs.v finish_go_in / pfold_add_total; the
+         manifest writes touch no table file), the journal removals and the janitor (which removes no named table);
+         it needs (i) a hypothesis on the image that the manifest's tables have numbers below its next-file number
+         and pass tfile_okb (tables_answer gives the latter), and (ii) a formulation of flush_side_ok for ALL the
+         buffers the recovery flushes that is a hypothesis on the IMAGE (a bound on the journals' sizes implies C13's
+         size condition, but that implication is not proved) — then wb_tables of wf_bstate; wb_abs (the L1 layout is
+         well-formed: level-0 additions) needs C06's flush step on the "version plus pending adds" view;
+     (b) C04_open_rw_end_to_end;  (c) C04_open_rw_idempotent (plus the snapshot record's round trip through
+         session_recover). *)
